@@ -128,6 +128,7 @@ func settingsOf(o *options.Options) []cfgSetting {
 	if o.Logging.AuthFormat != options.NewOptions().Logging.AuthFormat {
 		add("auth-logging-format", o.Logging.AuthFormat)
 	}
+	add("relative-redirect-url", o.RelativeRedirectURL)
 	add("allow-query-semicolons", o.AllowQuerySemicolons)
 	add("signature-key", o.SignatureKey)
 	add("proxy-prefix", o.ProxyPrefix)
@@ -188,7 +189,7 @@ var documentedDefaults = map[string]interface{}{
 	"authenticated-emails-file": "", "skip-jwt-bearer-tokens": false, "extra-jwt-issuers": []string{}, "force-https": false,
 	"redirect-url": "", "htpasswd-file": "", "htpasswd-user-group": []string{}, "session-store-type": "cookie",
 	"redis-connection-url": "", "session-cookie-minimal": false,
-	"allow-query-semicolons": false, "signature-key": "",
+	"allow-query-semicolons": false, "signature-key": "", "relative-redirect-url": false,
 	"proxy-prefix": "/oauth2", "ping-path": "/ping", "ready-path": "/ready", "gcp-healthchecks": false, "show-debug-on-error": false,
 	"banner": "", "footer": "", "request-logging": true, "auth-logging": true, "silence-ping-logging": false,
 	"insecure-oidc-skip-nonce": true, "insecure-oidc-allow-unverified-email": false,
@@ -402,6 +403,7 @@ func cfgPathProps(path string) []string {
 		{".ForceHTTPS", []string{"C06", "C18"}},
 		{".ProxyPrefix", []string{"C01", "C03", "C06", "C15"}},
 		{".AllowQuerySemicolons", []string{"C17"}},
+		{".RelativeRedirectURL", []string{"C03", "C06"}},
 		{".SignatureKey", []string{"C17"}},
 	}
 	for _, t := range table {
